@@ -139,7 +139,7 @@ pub fn case_strategy(p: &Profile) -> impl Strategy<Value = HistCase> {
         struct_spec(p.max_dims, p.max_attrs, p.max_rights, p.odd_names),
         proptest::collection::vec(op_strategy(p), p.min_ops..=p.max_ops),
     )
-        .prop_flat_map(|(base, ops)| prop_oneof![6 => Just(0u8), 1 => Just(1u8), 1 => Just(2u8)].prop_map(move |extra_tracers| (base.clone(), ops.clone(), extra_tracers)))
+        .prop_flat_map(|(base, ops)| prop_oneof![12 => Just(0u8), 2 => Just(1u8), 2 => Just(2u8), 1 => Just(4u8)].prop_map(move |extra_tracers| (base.clone(), ops.clone(), extra_tracers)))
         .prop_flat_map(|(base, ops, extra_tracers)| prop_oneof![7 => Just(0u8), 1 => Just(130u8)].prop_map(move |id_offset| HistCase { base: base.clone(), ops: ops.clone(), extra_tracers, id_offset }))
 }
 
@@ -261,7 +261,7 @@ fn dec_op(s: &mut ByteSource, p: &Profile) -> Option<Op> {
 /// mutations (insert / delete / splice) of a fuzzer are mutations of the operation sequence.
 pub fn decode_case(data: &[u8], p: &Profile) -> HistCase {
     let mut s = ByteSource::new(data);
-    let extra_tracers = [0u8, 0, 0, 0, 0, 0, 1, 2][s.below(8)];
+    let extra_tracers = [0u8, 0, 0, 0, 0, 0, 0, 0, 0, 0, 0, 0, 1, 1, 2, 2, 4][s.below(17)];
     let id_offset = if s.below(8) == 7 { 130 } else { 0 };
     let nd = 1 + s.below(p.max_dims.max(1));
     let mut raw = vec![];
